@@ -276,12 +276,24 @@ def h_pa(ctx):
     east = (-sin_(ra2), cos_(ra2), 0)
     north = (-sin_(dc2) * cos_(ra2), -sin_(dc2) * sin_(ra2), cos_(dc2))
     c1 = cos_(radians_(de1))
-    ctx.identity("atan2 numerator * cos(delta1) == v1 . east(at body 2)", A * c1, dot(v1, east))
-    ctx.identity("atan2 denominator * cos(delta1) == v1 . north(at body 2)", B * c1, dot(v1, north))
+    # (A, B) must be (v1 . east, v1 . north) times a positive factor; the factor is a matter of how the formula is written
+    # (Meeus' form divides by cos(delta1), the cancellation-free form does not): the form that the code uses is found first,
+    # then stated as the obligation
+    from pyvc import ring
+    scale, sname = c1, "* cos(delta1) "
+    if ring.prove_identity(Num.of(A).real(), Num.of(dot(v1, east)).real())[0]:
+        scale, sname = 1, ""
+    ctx.identity("atan2 numerator %s== v1 . east(at body 2)" % sname, A * scale, dot(v1, east))
+    ctx.identity("atan2 denominator %s== v1 . north(at body 2)" % sname, B * scale, dot(v1, north))
     # antisymmetry of the east component under exchange of the bodies
     r2 = ctx.call(COORD + "relative_position_angle", a2, d2, a1, d1)
     (A2, B2), = ctx.uf_terms("atan2")[-1:]
-    ctx.identity("exchanging the bodies negates the east component", A2, -A)
+    # east component per unit cos(delta) of the body it belongs to, sin(alpha1 - alpha2): negated by the exchange
+    c2 = cos_(radians_(de2))
+    if sname:
+        ctx.identity("exchanging the bodies negates the east component sin(alpha1 - alpha2)", A2, -A)
+    else:
+        ctx.identity("exchanging the bodies negates the east component sin(alpha1 - alpha2)", A2 * c1, -A * c2)
 
 
 # ---- smallest enclosing circle
@@ -398,12 +410,59 @@ def b_sphere(rng, tier):
                 s2 = C.angular_separation(Angle(lo2), Angle(la2), a, b)()
                 e1, f1 = C.equatorial2ecliptical(a, b, Angle(eps))
                 e2, f2 = C.equatorial2ecliptical(Angle(lo2), Angle(la2), Angle(eps))
-                tol_s = 1e-9 if 1e-3 < s0 < 179.0 else 1e-6
+                tol_s = 1e-9                  # the property's figure over the whole range 1e-7 .. 179.999 degrees
                 ok = ok and abs(s1 - s0) < tol_s and abs(s1 - s2) < 1e-12 and abs(sep(e1(), f1(), e2(), f2()) - s0) < 1e-9
             det = None
         except Exception as ex:
             ok, det = False, repr(ex)
         yield ((lon, lat, round(eps, 6), round(phi, 6)), ok, det, not polar)
+    # separation and position angle over the whole stated range of separations, 1e-7 .. 179.999 degrees: partner directions at a
+    # chosen distance and bearing from a seeded direction (built with the exact spherical triangle in extended precision-free form:
+    # the oracle is the cross/dot product of the two unit vectors actually passed)
+    for i in range(200 if tier == "quick" else 6000):
+        lon, lat = rng.uniform(0, 360), math.degrees(math.asin(rng.uniform(-0.999, 0.999)))
+        s_want = rng.choice((1e-7, 3e-7, 1e-6, 1e-5, 1e-4, 1e-3, 1e-2, 0.1, 1.0, 30.0, 90.0, 150.0, 179.0, 179.9, 179.99, 179.999))
+        pa = math.radians(rng.uniform(0, 360))
+        d, b1 = math.radians(s_want), math.radians(lat)
+        b2 = math.asin(max(-1.0, min(1.0, math.sin(b1) * math.cos(d) + math.cos(b1) * math.sin(d) * math.cos(pa))))
+        dl = math.atan2(math.sin(pa) * math.sin(d) * math.cos(b1), math.cos(d) - math.sin(b1) * math.sin(b2))
+        lo2, la2 = (lon + math.degrees(dl)) % 360.0, math.degrees(b2)
+        ok, det, env = True, None, ""
+        try:
+            s0 = sep(lon, lat, lo2, la2)
+            if 1e-7 <= s0 <= 179.999:
+                # oracle in 50-digit decimal arithmetic on the exact binary64 inputs (specs/hp.py): cross and dot product of the unit
+                # vectors, north and east at body 2; the differences to the library's angles are small angles evaluated exactly
+                from specs import hp
+                (sa1, ca1), (sd1, cd1) = hp.sincos(hp.rad(lo2)), hp.sincos(hp.rad(la2))        # body 1 = the partner
+                (sa2, ca2), (sd2, cd2) = hp.sincos(hp.rad(lon)), hp.sincos(hp.rad(lat))        # body 2 = the seeded direction
+                v1 = (cd1 * ca1, cd1 * sa1, sd1)
+                v2 = (cd2 * ca2, cd2 * sa2, sd2)
+                cr = (v1[1] * v2[2] - v1[2] * v2[1], v1[2] * v2[0] - v1[0] * v2[2], v1[0] * v2[1] - v1[1] * v2[0])
+                ncr = (cr[0] * cr[0] + cr[1] * cr[1] + cr[2] * cr[2]).sqrt()
+                dt = v1[0] * v2[0] + v1[1] * v2[1] + v1[2] * v2[2]
+                s1 = C.angular_separation(Angle(lo2), Angle(la2), Angle(lon), Angle(lat))()
+                s2 = C.angular_separation(Angle(lon), Angle(lat), Angle(lo2), Angle(la2))()
+                ss, cs = hp.sincos(hp.rad(s1))
+                es = hp.small_angle_deg(ss * dt - cs * ncr, cs * dt + ss * ncr)
+                east = (-sa2, ca2, 0)
+                north = (-sd2 * ca2, -sd2 * sa2, cd2)
+                x = v1[0] * north[0] + v1[1] * north[1] + v1[2] * north[2]
+                y = v1[0] * east[0] + v1[1] * east[1]
+                p1 = C.relative_position_angle(Angle(lo2), Angle(la2), Angle(lon), Angle(lat))()
+                sp_, cp_ = hp.sincos(hp.rad(p1))
+                ep = hp.small_angle_deg(sp_ * x - cp_ * y, cp_ * x + sp_ * y)
+                if es is None or abs(es) >= 1e-9 or abs(s1 - s2) >= 1e-12:
+                    ok, det = False, ("separation vs cross/dot product (50 digits): error", es, s1, s0, s2)
+                    # known finding: 2 asin(sqrt(hav)) within 0.001 degree of the antipode (error up to 2e-9 degree)
+                    env = "inside-known-envelope" if (es is not None and s0 >= 179.99 and abs(es) < 3e-9 and abs(s1 - s2) < 1e-12) else "beyond-known-envelope"
+                elif ep is None or abs(ep) >= 1e-9:
+                    ok, det = False, ("position angle vs east/north components (50 digits): error", ep, p1)
+                    # known finding (same place): next to the antipode the position angle is as ill-conditioned as next to the body
+                    env = "inside-known-envelope" if (ep is not None and s0 >= 179.99 and abs(ep) < 3e-9) else "beyond-known-envelope"
+        except Exception as ex:
+            ok, det, env = False, repr(ex), "beyond-known-envelope"
+        yield (("separation", round(lon, 6), round(lat, 6), s_want, round(math.degrees(pa), 3), env), ok, det)
     # circle diameter on nearby triples
     for i in range(300 if tier == "quick" else 20000):
         l0, b0 = rng.uniform(0, 360), rng.uniform(-80, 80)
